@@ -9,9 +9,11 @@ HASH_INSENSITIVE = True
 def _k1():
     cfg = cellcfg.k1()
     cfg['monitors'] = [cellmon.mon_c07]
+    # priority-0 instances: utilisation is +inf for all of them, so they tie
+    cfg['templates']['z0'] = {'prio': 0, 'demand': [8, 8, 8], 'aff': 'z'}
     cfg['events'] = cellcfg.ev(
         ('add', 'sm'), ('add', 'sk'), ('add', 'ks'), ('add', 'hi'),
-        ('add', 'lo'),
+        ('add', 'lo'), ('add', 'z0'),
         ('rm', 0), ('rm', 1), ('prio', 0, 100), ('prio', 1, 1), ('prio', 2, 0),
         ('down', 's0'), ('up', 's0'), ('down', 's1'), ('up', 's1'),
         ('frz', 's0', 0), ('frz', 's0', -1),
